@@ -87,7 +87,7 @@ void check_fill(ConstPool& pool, const Model& m) {
 
 // Executes add-type operations against `add_fn`, which returns (Error, offset).
 template<typename AddFn>
-void run_ops(const Plan& plan, Model& m, std::vector<std::string>& history, AddFn&& add_fn, ConstPool* direct_pool) {
+void run_ops(const Plan& plan, Model& m, std::vector<std::string>& history, AddFn&& add_fn, ConstPool* direct_pool, Arena* direct_arena = nullptr) {
   for (size_t i = 0; i < plan.ops.size(); i++) {
     const Op& op = plan.ops[i];
     sim::begin_op(op, i);
@@ -122,7 +122,15 @@ void run_ops(const Plan& plan, Model& m, std::vector<std::string>& history, AddF
       }
       case kFill: if (direct_pool) check_fill(*direct_pool, m); sim::end_op(); continue;
       case kReset:
-        if (direct_pool) { direct_pool->reset(); m = Model(); SIM_CHECK(direct_pool->size() == 0 && direct_pool->alignment() == 0 && direct_pool->is_empty(), "c19:reset", "reset() left size/alignment behind"); sim::logf("reset"); }
+        if (direct_pool) {
+          direct_pool->reset(); m = Model();
+          SIM_CHECK(direct_pool->size() == 0 && direct_pool->alignment() == 0 && direct_pool->is_empty(), "c19:reset", "reset() left size/alignment behind");
+          // the usual way a pool is recycled: its arena is reset as well, so the memory of the old nodes and gap records is
+          // handed out again
+          int how = int(op.a[0] % 3);
+          if (direct_arena && how) { direct_arena->reset(how == 1 ? ResetPolicy::kSoft : ResetPolicy::kHard); sim::count("c19.probe.pool_and_arena_reset"); }
+          sim::logf("reset arena=%d", how);
+        }
         sim::end_op();
         continue;
       default: sim::end_op(); continue;
@@ -161,7 +169,7 @@ void execute_direct(const Plan& plan) {
       Error e = pool.add(d.data(), d.size(), Out(off));
       psize = pool.size(); palign = pool.alignment();
       return e;
-    }, &pool);
+    }, &pool, &arena);
     sim::begin_op(Op(), plan.ops.size());
     check_fill(pool, m);
     if (!m.entries.empty()) sim::mark_nontrivial();
@@ -244,6 +252,21 @@ void execute_compiler(const Plan& plan) {
     BaseCompiler& cc = arch == 2 ? static_cast<BaseCompiler&>(acc) : static_cast<BaseCompiler&>(xcc);
     bool attached = code.attach(&cc) == Error::kOk;
     SIM_CHECK(attached || sim::run_faults_fired_total() > 0, "c19:setup", "attach failed");
+    // Optionally the Compiler has a past: a function that created local and global constants was abandoned before
+    // finalize() and the objects were recycled (reinit, or reset + init + attach).
+    int abandoned = int(plan.get("abandoned", 0));
+    if (attached && abandoned) {
+      if (cc.add_func(FuncSignature::build<void>())) {
+        for (size_t i = 0; i < plan.ops.size() && i < 4; i++) {
+          std::string d = gen_bytes(uint64_t(plan.ops[i].a[1]) ^ 0xABCD, size_t(1) << (plan.ops[i].a[0] % 7), 0);
+          BaseMem mem; (void)cc._new_const(Out<BaseMem>(mem), ConstPoolScope(i & 1), d.data(), d.size());
+        }
+      }
+      if (abandoned == 1) attached = code.reinit() == Error::kOk;
+      else { code.reset(ResetPolicy::kSoft); attached = code.init(env) == Error::kOk && code.attach(&cc) == Error::kOk; }
+      SIM_CHECK(attached, "c19:setup", "recycling the compiler failed");
+      sim::count("c19.probe.compiler_recycled_after_abandoned_function");
+    }
     FuncNode* fn = attached ? cc.add_func(FuncSignature::build<void>()) : nullptr;
     struct Handed { uint32_t label_id; size_t offset; std::string bytes; };
     std::vector<Handed> handed;
@@ -316,6 +339,7 @@ Plan generate_common(uint64_t seed, bool thorough, bool allow_reset) {
   p.set("code_buffer", cfg.chance(1, 2) ? int64_t(32 << cfg.below(4)) : 0);
   p.set("arch", int64_t(cfg.below(3)));
   p.set("builder", int64_t(cfg.chance(1, 3)));
+  p.set("abandoned", cfg.chance(1, 2) ? 0 : int64_t(1 + cfg.below(2)));
   p.set("prefix_nops", int64_t(cfg.below(70)));
   int fault_class = int(cfg.below(3));
   p.set("fault_class", fault_class);
@@ -325,7 +349,7 @@ Plan generate_common(uint64_t seed, bool thorough, bool allow_reset) {
     Op op;
     static const uint16_t ks[] = {kAdd, kAdd, kAdd, kAdd, kAddRepeat, kAddPart, kAddPart, kAddWider, kAddInvalid, kFill, kReset};
     op.kind = r.pick(ks);
-    if (op.kind == kReset && (!allow_reset || !r.chance(1, 6))) op.kind = kAdd;
+    if (op.kind == kReset && (!allow_reset || !r.chance(1, 3))) op.kind = kAdd;
     op.a[0] = int64_t(op.kind == kAdd ? (size_bias == 1 ? r.below(4) : size_bias == 2 ? 3 + r.below(4) : r.below(7)) : r.below(100000));
     op.a[1] = int64_t(r.chance(1, 3) ? r.below(6) : (r.next() & 0x7fffffffffffll));
     op.a[2] = int64_t(r.below(1000));
@@ -344,7 +368,7 @@ Plan generate_direct(uint64_t seed, bool thorough) { return generate_common(seed
 Plan generate_embed(uint64_t seed, bool thorough) { return generate_common(seed, thorough, false); }
 
 void shrink(const Plan& p, std::vector<Plan>& out) {
-  static const char* const zero_keys[] = {"junk", "shift", "arena_block", "realloc_move", "code_buffer", "prefix_nops"};
+  static const char* const zero_keys[] = {"junk", "shift", "arena_block", "realloc_move", "code_buffer", "prefix_nops", "abandoned", "builder"};
   for (const char* k : zero_keys) if (p.get(k)) { Plan q = p; q.set(k, 0); out.push_back(q); }
 }
 
